@@ -16,6 +16,9 @@ def run(ctx):
         r4 = ctx.rule("R04.4" + sfx, "a truncated prefix yields NeedsMoreInput / FailedCannotMakeProgress only: end_of_input is their only origin "
                       "and is reached only with the input exhausted", floor=5, config=cfg)
         ic.rule_end_of_input(ctx, cfg, r4)
+        r6 = ctx.rule("R04.6" + sfx, "too many symbols: code-length entries are counted exactly (literal +1, repeat code + its full run, "
+                      "nothing clamped), so the counter == HLIT+HDIST test sees every overshoot", floor=5, config=cfg)
+        ic.rule_repeat_run(ctx, cfg, r6)
         if cfg == "H1":
             r5 = ctx.rule("R04.5", "validate_zlib_header = RFC 1950 over all 2^16 (CMF, FLG) pairs x buffer modes", floor=2, config=cfg)
             ic.rule_zlib_header(ctx, cfg, r5)
